@@ -20,6 +20,8 @@ let eval ?(kill_timeout = false) (prev : state) (op : op) (r : result) (next : s
     ("replay", BackendSpec.replay_ok prev op r next);
     (* delivery log, judged on this step alone: queued messages stay until dequeued, whatever Subscribe/Unsubscribe do *)
     ("delivery", BackendLog.delivery_ok prev op r next);
+    (* everything else is unchanged: subscriptions, active connections, which sessions exist *)
+    ("frame", BackendFrame.frame_ok prev op r next);
     ("handover", BackendC13.handover_ok prev op r next);
     (* backend side of C08 *)
     ("offline_queue", BackendC08.offline_queue_ok prev op r next);
